@@ -110,9 +110,11 @@ def _digest_value_text(val: Any, nested: bool = False) -> str:
         items = ", ".join(sorted(_digest_value_text(v, True) for v in val))
         return f"{{{items}}}" if type(val) is set else f"{type(val).__name__}({{{items}}})"
 
-    if type(val) is tuple:
+    if isinstance(val, tuple):
         items = ", ".join(_digest_value_text(v, True) for v in val)
-        return f"({items},)" if len(val) == 1 else f"({items})"
+        text = f"({items},)" if len(val) == 1 else f"({items})"
+        # tuple subclasses (named tuples) keep their class name, as in their repr()
+        return text if type(val) is tuple else f"{type(val).__name__}{text}"
 
     return repr(val) if nested else str(val)
 
